@@ -106,3 +106,57 @@ func VH_C09_batch() {
 		vCover("continue")
 	}
 }
+
+// the settings that count are those in force when the run starts: a node that has already run a
+// batch with c1 workers and is then set to one worker (or to sequential execution) and stop mode
+// through its builder stops like a freshly built one — nothing after the first failing item runs
+func VH_C09_rerun() {
+	vUnwind(24)
+	n := vParam("n", 3)
+	c1 := 1 + vChoice("c1", vParam("c", 2)) // 1..c
+	c2 := vChoice("c2", 2)                  // 0 (sequential) or 1 (one worker)
+	failAt := vChoice("failAt", n-1)        // an item that has successors
+	phase := 1
+	started := make([]int, n)
+	posts := 0
+	b := NewBatchNode().WithBatchConcurrency(c1).WithBatchErrorHandling(true).
+		WithPrepFunc(func(ctx context.Context, s *SharedStore) ([]Result, error) {
+			if phase == 1 {
+				return bItems(c1), nil // the first run only has to get every worker going
+			}
+			return bItems(n), nil
+		}).
+		WithExecFunc(func(ctx context.Context, item Result) (Result, error) {
+			k := bIndex(item)
+			var err error
+			vMon(func() {
+				if phase == 2 {
+					started[k]++
+					if k == failAt {
+						err = vNewErr()
+					}
+				}
+			})
+			return item, err
+		}).
+		WithPostFunc(func(ctx context.Context, s *SharedStore, items, results []Result) (Action, error) {
+			vMon(func() { posts++ })
+			return "done", nil
+		})
+	if _, err := Run(vNewCtx(), b, NewSharedStore()); err != nil || posts != 1 {
+		return
+	}
+	phase = 2
+	b.WithBatchConcurrency(c2).WithBatchErrorHandling(false)
+	if _, err := Run(vNewCtx(), b, NewSharedStore()); err != nil || posts != 2 {
+		return
+	}
+	for i := 0; i < n; i++ {
+		if i <= failAt {
+			vAssert(started[i] == 1, "sequential-stop-nothing-runs-after-the-first-failure")
+		} else {
+			vAssert(started[i] == 0, "sequential-stop-nothing-runs-after-the-first-failure")
+		}
+	}
+	vCover("stop-after-reconfiguration")
+}
